@@ -47,16 +47,16 @@ def envelope(sc):
 
 def gen(rng, tier):
     for _ in range(500):
-        sc = _gen(rng)
+        sc = _gen(rng, tier == 'thorough')
         if sc is not None and not envelope(sc):
             return sc
     raise RuntimeError('generator cannot leave the envelope')
 
 
-def _gen(rng):
-    nv = rng.randint(1, 3)
+def _gen(rng, big=False):
+    nv = rng.randint(1, 4 if big else 3)
     vars_ = common.VARS[:nv]
-    cfg = sg.GenCfg(vars=vars_, ops=common.DENSE_OFFLINE_OPS, max_depth=rng.randint(2, 4), max_bound=rng.choice([4, 8, 12]),
+    cfg = sg.GenCfg(vars=vars_, ops=common.DENSE_OFFLINE_OPS, max_depth=rng.randint(2, 5 if big else 4), max_bound=rng.choice([4, 8, 12] + ([16] if big else [])),
                     p_reuse=rng.choice([0.0, 0.15]), allow_const_only=rng.random() < 0.25, p_loose=rng.choice([0.08, 0.3]))
     ast = sg.gen_formula(rng, cfg)
     used = sg.vars_of(ast)
@@ -66,7 +66,7 @@ def _gen(rng):
     signals = {}
     fired = {}
     for v in vars_:
-        s, f = world.gen_dense_signal(rng, rng.choice([1, 2, 3, 4, 5, 6, 7]), start_q=0 if zero else rng.randint(0, 6),
+        s, f = world.gen_dense_signal(rng, rng.choice([1, 2, 3, 4, 5, 6, 7] + ([10, 14] if big else [])), start_q=0 if zero else rng.randint(0, 6),
                                       max_gap_q=rng.choice([2, 4, 8]), resample_p=rng.choice([0.15, 0.4]),
                                       style=rng.choice([None, None, 'ints']))
         signals[v] = s
